@@ -24,8 +24,7 @@ For a method `m`, `C01_m_fix` is the authentication round trip at the level of t
 whatever setting `s` produced `H`, hashing the same phrase with `H` as the setting reproduces `H`.
 `C01_m_hashpart` is the second clause: `H` splits as `S ++ digestText`, and `S ++ t` gives `H` for EVERY text `t`
 (so the hash portion of a stored hash has no influence, and neither has anything after it).
-All of it holds for arbitrary digest functions `D`.  Methods not listed here (sunmd5, scrypt,
-yescrypt, gost-yescrypt) have no such theorem yet: for them the clause rests on the oracle of checks/c01.py. -/
+All of it holds for arbitrary digest functions `D`.  Methods not listed here (sunmd5, scrypt, gost-yescrypt) have no such theorem yet: for them the clause rests on the oracle of checks/c01.py. -/
 
 theorem C01_md5crypt_fix (D : Digests) (p s H : Bytes) (h : cryptMd5 D p s = .ok H) : cryptMd5 D p H = .ok H := by
   obtain ⟨salt, e, f⟩ := cryptMd5_refeed h
@@ -105,6 +104,31 @@ theorem C01_bcrypt_hashpart (D : Digests) (p s H : Bytes) (h : cryptBf D p s = .
     ∃ S dig, H = S ++ dig ∧ S.length = 29 ∧ ∀ t, cryptBf D p (S ++ t) = .ok H := by
   obtain ⟨c22, dig, hl, e, f⟩ := cryptBf_refeed h
   exact ⟨s.take 28 ++ [c22], dig, e, by simp; omega, f⟩
+
+/-- yescrypt (`$y$`, the default method): the parameters are read below `prefixlen`, the salt string ends at the last `$` -/
+theorem C01_yescrypt_fix (D : Digests) (p s H : Bytes) (h : cryptYescrypt D p s = .ok H) : cryptYescrypt D p H = .ok H := by
+  unfold cryptYescrypt cryptYescryptCore at h ⊢
+  split at h; · cases h
+  rename_i out hout
+  cases h
+  obtain ⟨k, dig, _, _, e, hd, f⟩ := yescryptR_refeed hout
+  have := f dig hd
+  rw [← e] at this
+  rw [this]
+
+/-- only the parameters and the salt matter: any text free of `$` may follow the `$` that ends the salt -/
+theorem C01_yescrypt_hashpart (D : Digests) (p s H : Bytes) (h : cryptYescrypt D p s = .ok H) :
+    ∃ S dig, H = S ++ dig ∧ ∀ t, (36 : UInt8) ∉ t → cryptYescrypt D p (S ++ t) = .ok H := by
+  unfold cryptYescrypt cryptYescryptCore at h
+  split at h; · cases h
+  rename_i out hout
+  cases h
+  obtain ⟨k, dig, _, _, e, hd, f⟩ := yescryptR_refeed hout
+  refine ⟨s.take k ++ [36], dig, by rw [e]; simp, fun t ht => ?_⟩
+  unfold cryptYescrypt cryptYescryptCore
+  have := f t ht
+  simp only [List.append_assoc, List.singleton_append]
+  rw [this, e]
 
 /-- non-vacuity: concrete settings meet the hypotheses (kernel-evaluated with the executable digests abstracted away) -/
 example (D : Digests) : ∃ H, cryptMd5 D [112, 119] [36, 49, 36, 115, 97, 108, 116] = .ok H := ⟨_, rfl⟩
@@ -206,7 +230,7 @@ theorem tag_facts : C18.tagOf .md5crypt = Gen.md5_salt_prefix ∧ C18.tagOf .sha
 /-- the methods for which the front-end round trip is proved (C01_*_fix) -/
 def proved (m : Method) : Bool :=
   match m with
-  | .sunmd5 | .scrypt | .yescrypt | .gost_yescrypt => false
+  | .sunmd5 | .scrypt | .gost_yescrypt => false
   | _ => true
 
 /-- **C01, both clauses, at the level of the API** (`do_crypt`: length check, character filter, dispatch, method):
@@ -256,6 +280,17 @@ theorem C01_roundtrip (cfg : Config) (hT : C18.TableOk cfg.table = true) (D : Di
       | (rw [he] at rtag; have := t13 _ rtag.symm; simp at this; done)
       | (simp [cryptBig, cryptDes, parseDesSalt, cat, asciiToBin] at h; done)
   cases hc : r.crypt <;> rw [hc] at h hpr rtag <;> simp only [cryptMethod, proved] at h hpr ⊢ <;> try (cases hpr; done)
+  case yescrypt =>
+    have hne : r.pfx ≠ [] := by rw [rtag]; decide
+    have hfix := C01_yescrypt_fix D p s H h
+    unfold cryptYescrypt cryptYescryptCore at h
+    split at h; · cases h
+    rename_i out hout
+    cases h
+    obtain ⟨k, dig, hk1, hk2, e, _, _⟩ := yescryptR_refeed hout
+    refine ⟨redispatch cfg.table hT s H r hr (Or.inl ⟨hne, ?_⟩), hfix⟩
+    have h3 : (C18.tagOf .yescrypt).length = 3 := by decide
+    rw [e]; exact prefix_take_append _ k (spre hne) (by rw [rtag, h3]; omega)
   case bcrypt =>
     have hne : r.pfx ≠ [] := by rw [rtag]; decide
     obtain ⟨c22, dig, hl, e, f⟩ := cryptBf_refeed h
